@@ -242,8 +242,10 @@ class QFDriver:
         elif kind == "resize":
             dq = op[1]
             newq = None if dq is None else o.quotient + dq
+            if dq is not None and dq >= 100:
+                newq = dq - 100 + 32  # an ABSOLUTE target above the documented range (32, 33, 40): must be refused, nothing changed
             target = o.quotient + 1 if newq is None else newq
-            if target > self.maxq:
+            if self.maxq < target <= 31:
                 return
             oldq = o.quotient
             status, r = self.call(o.resize, newq, allow=(self.Err,))
@@ -259,11 +261,26 @@ class QFDriver:
                     self.feats.add("resize_with>=4")
                 self.feats.add("resize_up" if target > oldq else "resize_down" if target < oldq else "resize_same")
             ctx.op("resize", newq, status)
+        elif kind == "toggle_auto":
+            # the documented settable switch: off -> on leaves a filter that may be fuller than its maximum load factor (an
+            # expansion is then pending at the next insertion), on -> off freezes the size
+            def flip():
+                o.auto_expand = not o.auto_expand
+            self.call(flip)
+            self.feats.add("auto_expand_toggled")
+            ctx.op("toggle_auto", o.auto_expand)
         elif kind == "merge_self":
             # the union of a set with itself: merging a filter into itself must leave it as it is (the library iterates over the
             # argument while inserting into the receiver - here they are the same object)
             if (not o.auto_expand and False) or len(self.model) > 0.7 * o.size and o.quotient >= self.maxq:
                 return self.step(["remove", 0, 0])
+            if not o.auto_expand and o.load_factor >= o.max_load_factor and o.quotient < self.maxq:
+                # the switch is turned on for a filter that is already fuller than its maximum load factor: the very first
+                # insertion of the merge triggers the pending expansion
+                def flip():
+                    o.auto_expand = True
+                self.call(flip)
+                self.feats.add("merge_with_itself_expansion_pending")
             self.call(o.merge, o)
             self.feats.add("merge_with_itself")
             ctx.op("merge_self")
@@ -382,11 +399,11 @@ def case_strategy(tier, max_ops=60):
         ti, ri = st.integers(0, len(tops) - 1), st.integers(0, len(lows) - 1)
         ops = [st.tuples(st.just("add"), ti, ri)] * 6 + [st.tuples(st.just("remove"), ti, ri)] * 3 + [
             st.tuples(st.just("addkey"), st.integers(0, 5)), st.tuples(st.just("removekey"), st.integers(0, 5)),
-            st.tuples(st.just("resize"), st.sampled_from([None, None, 1, -1, -2, 2, 0])),
+            st.tuples(st.just("resize"), st.sampled_from([None, None, 1, -1, -2, 2, 0, 100, 101, 108])),
             st.tuples(st.just("merge"), st.lists(st.tuples(ti, ri), max_size=6), st.integers(3, 6)),
             st.tuples(st.sampled_from(["raw_add", "raw_remove"]), st.integers(0, 2 ** 32 - 1)),
             st.tuples(st.just("lsr"), st.integers(0, 40), ti, ri),
-            st.tuples(st.just("merge_self")),
+            st.tuples(st.just("merge_self")), st.tuples(st.just("toggle_auto")),
         ]
         return {
             "q": q, "auto": draw(st.booleans()), "dense": dense,
